@@ -30,7 +30,7 @@ pub static DEF: PropDef = PropDef {
     level: "exploration",
     total: |t| t.pick(640, 14400),
     run,
-    rule: "(a) histories of <=60 operations {block subnet, fetch address, fetch subnet of any mask, return a held unit} on generators built by new(range) / new_sub / new_sub_no_ends / all / none over pools that are single ranges, subnets of any mask and unions created by returns, including pools touching 0.0.0.0 and 255.255.255.255; a model keeps the pool as units (constructor range, returned units, pieces left by blocking) and the list of held units; every result is checked for membership, disjointness from everything held or blocked, and None only when no unit can hold an aligned block; new_sub_no_ends must offer exactly the host addresses. (b) full stack on the paused clock and on the multi-thread runtime: 1..40 DHCP clients start at once against one server with a pool of at least the needed size, latency jitter, <=1 duplicated frame per sender; leases must be pairwise distinct, inside the pool, equal to the your_ip of an Offer sent to that client's tap (H4), and a released address must be available from the server's pool again. Non-trivial = (a) history with a fragmented pool and a return followed by a fetch, (b) >=2 clients; distinct by history / scenario hash.",
+    rule: "(a) histories of <=60 operations {block subnet, fetch address, fetch subnet of any mask, return a held unit, return a subnet whose addresses are all available already (inside the pool, nothing of it held or blocked: the pool becomes a union of overlapping ranges)} on generators built by new(range) / new_sub / new_sub_no_ends / all / none over pools that are single ranges, subnets of any mask and unions created by returns, including pools touching 0.0.0.0 and 255.255.255.255; a model keeps the pool as units (constructor range, returned units, pieces left by blocking) and the list of held units; every result is checked for membership, disjointness from everything held or blocked, and None only when no unit can hold an aligned block; new_sub_no_ends must offer exactly the host addresses. (b) full stack on the paused clock and on the multi-thread runtime: 1..40 DHCP clients start at once against one server with a pool of at least the needed size, latency jitter, <=1 duplicated frame per sender; leases must be pairwise distinct, inside the pool, equal to the your_ip of an Offer sent to that client's tap (H4), and a released address must be available from the server's pool again. Non-trivial = (a) history with a fragmented pool and a return followed by a fetch, (b) >=2 clients; distinct by history / scenario hash.",
     assumptions: &["only units that are currently held are returned, and whole (returning something not held is misuse)", "merging of adjacent returned units is not demanded: 'no space' is judged per unit"],
     may_exit_process: true,
     watchdog_s: 300,
@@ -55,6 +55,9 @@ type Iv = (u64, u64);
 struct Model {
     units: Vec<Iv>,
     held: Vec<Iv>,
+    /// what the constructor made available, and what block_subnet took away for good
+    pool: Vec<Iv>,
+    blocked: Vec<Iv>,
 }
 
 impl Model {
@@ -102,7 +105,7 @@ fn generator_history(d: &mut Delta, rng: &mut impl Rng, sample: bool) {
     let len = *rng.pick(&[32u32, 31, 30, 29, 28, 24, 20, 16, 8, 1, 0]);
     let net = Ipv4Net::new(ip(base), Ipv4Mask::from_bitcount(len));
     let (nlo, nhi) = ((base & mask_bits(len)) as u64, (base | !mask_bits(len)) as u64);
-    let mut model = Model { units: vec![], held: vec![] };
+    let mut model = Model { units: vec![], held: vec![], pool: vec![], blocked: vec![] };
     let built = catch(|| match ctor {
         0 => {
             let a = base as u64;
@@ -129,6 +132,7 @@ fn generator_history(d: &mut Delta, rng: &mut impl Rng, sample: bool) {
             return;
         }
     };
+    model.pool = units.clone();
     model.units = units;
     ops.push(desc.clone());
     if ctor == 2 {
@@ -173,6 +177,7 @@ fn generator_history(d: &mut Delta, rng: &mut impl Rng, sample: bool) {
                 return;
             }
             model.block(b);
+            model.blocked.push(b);
             if model.units.len() >= 2 {
                 fragmented = true;
             }
@@ -252,6 +257,29 @@ fn generator_history(d: &mut Delta, rng: &mut impl Rng, sample: bool) {
                     d.tally("exhaustions_reported", 1);
                 }
             }
+        } else if r < 82 && !model.units.is_empty() {
+            // redundant return: a subnet all of whose addresses are available already (never fetched, or
+            // fetched and returned before). It changes nothing about who holds what, but it leaves the pool
+            // as a union of overlapping ranges, which later fetches and blocks have to cut everywhere.
+            let u = model.units[rng.gen_range(0..model.units.len())];
+            let a = (u.0 + rng.gen_range(0..=(u.1 - u.0).min(600))) as u32;
+            let rlen = *rng.pick(&[32u32, 31, 30, 28, 25, 24]);
+            let x = ((a & mask_bits(rlen)) as u64, (a | !mask_bits(rlen)) as u64);
+            let inside_pool = model.pool.iter().any(|p| p.0 <= x.0 && x.1 <= p.1);
+            let touches_blocked = model.blocked.iter().any(|b| b.0 <= x.1 && x.0 <= b.1);
+            if !inside_pool || touches_blocked || model.overlaps_held(x) {
+                continue;
+            }
+            let n = Ipv4Net::new(ip(x.0 as u32), Ipv4Mask::from_bitcount(rlen));
+            ops.push(format!("return_subnet {n:?} (all of it available already)"));
+            if let Err(e) = catch(|| gen.return_subnet(n)) {
+                let (msg, loc) = split_panic(&e);
+                d.violation(format!("panic:{loc}"), format!("return_subnet panicked: {msg}"), json!({"ops": ops}));
+                return;
+            }
+            model.units.push(x);
+            returned_recently = true;
+            d.tally("redundant_returns", 1);
         } else if !model.held.is_empty() {
             let i = rng.gen_range(0..model.held.len());
             let h = model.held.remove(i);
